@@ -18,6 +18,9 @@ type C03Case struct {
 	Cfg   Cfg   `json:"cfg"`
 	Debug bool  `json:"debug"`
 	Reqs  []Req `json:"reqs"`
+	// Rewriting lists the indexes of requests that are served by an inner handler which rewrites in place
+	// the first value of every header slice it can reach; their own responses are not judged, the later ones are.
+	Rewriting []int `json:"rewriting,omitempty"`
 }
 
 func (c C03Case) Brief() any {
@@ -25,7 +28,7 @@ func (c C03Case) Brief() any {
 	for i, r := range c.Reqs {
 		rs[i] = r.Brief()
 	}
-	return map[string]any{"cfg": c.Cfg, "debug": c.Debug, "reqs": rs}
+	return map[string]any{"cfg": c.Cfg, "debug": c.Debug, "reqs": rs, "rewriting": c.Rewriting}
 }
 
 func mkMW(c Cfg, debug bool) (*cors.Middleware, error) {
@@ -217,8 +220,19 @@ func c03Gen(t *rapid.T) C03Case {
 	n := intIn(t, "nreqs", 4, 24)
 	for i := 0; i < n; i++ {
 		c.Reqs = append(c.Reqs, genReq(t, p))
+		if i < n-1 && chance(t, "rewriting", 8) {
+			c.Rewriting = append(c.Rewriting, i)
+		}
 	}
 	return c
+}
+
+func intStrs(xs []int) []string {
+	out := make([]string, len(xs))
+	for i, x := range xs {
+		out[i] = fmt.Sprint(x)
+	}
+	return out
 }
 
 func c03Check(c C03Case, rec *Recorder) *Disc {
@@ -233,6 +247,11 @@ func c03Check(c C03Case, rec *Recorder) *Disc {
 	for ri, r := range c.Reqs {
 		if ri == len(c.Reqs)/2 {
 			m.Config() // an observer, called in the middle of the batch
+		}
+		if contains(intStrs(c.Rewriting), fmt.Sprint(ri)) {
+			DoScript(wrap, r, nil, rewritingHandler)
+			rec.Class("served-by-rewriting-handler")
+			continue
 		}
 		resp := Do(wrap, r, nil)
 		rec.Eval(1)
@@ -276,7 +295,7 @@ func c03Prop() Prop[C03Case] {
 			"(any method; Origin/ACRM/ACRH/ACRPN absent, zero-valued, single, multi-valued; values from config-derived pools: allowed, near-miss, 34 malformations incl. upper case, userinfo, path/query/fragment, " +
 			"bracketed non-IP host, unmatched bracket, leading-zero/6-digit/zero/65536 port, NUL, non-ASCII, null, empty, 1KiB-1MiB values, junk bytes). evaluations = responses checked against the five invariants. " +
 			"non-trivial = request whose Origin is present and malformed, a near-miss or multi-valued, or a preflight under a credentialed configuration; distinct by (configuration, debug, request).",
-		Assumptions: []string{"inner handler sets no CORS header", "origin model as in C01; an origin that does not match the serialisation grammar is 'not an origin' and hence not allowed",
+		Assumptions: []string{"inner handler sets no CORS header (8% of the requests of a batch are served by a handler that rewrites header slots in place; those responses are not judged, the following ones are)", "origin model as in C01; an origin that does not match the serialisation grammar is 'not an origin' and hence not allowed",
 			"known finding bracketed-host-echo is excluded by signature and counted"}}
 }
 
